@@ -114,11 +114,11 @@ PROPS = {
         level_note="C10_nonstrict_is_instantiate_partial: for every pattern the independent tokenizer accepts (up to the 32767-byte segment limit, C10_*_refuted shows the limit matters) non-strict URL building IS 'replace every {..} token by params[name], keep literal text, fail iff a parameter is missing'; C10_tokens_split_agree_partial / C10_tokens_split_names / C10_tokens_split_kinds: the model's Split and the tokenizer agree on segments, names and kinds; C10_empty_name_rejected, C10_adjacent_rejected, C10_dupname_rejected: the documented syntax errors are rejected."),
     "C11": rt(250, 4000, ["creq"],
         "CORS configurations (origins none/*/list/list+*, allow-headers none/*/list, exposed, max-age, credentials) x 40 random requests per case over method, path (live, unknown, *), Origin, ACRM, ACRH classes; thorough tier adds the exhaustive product (suite C11x)",
-        suite="C11", props=["C11"],
+        suite="C11", props=["C11", "PureFuns"],
         level_text="C11_acao_sound, C11_acao_single, C11_credentials, C11_no_origins_no_grant, C11_unserved_preflight_method, C11_disallowed_header, C11_header_check_is_case_insensitive over every configuration, node method set and request (all byte strings).",
         level_note="404/405 never reach the CORS code (serveContext calls it only when a handler was found): part of the model's creq_obs, compared on every case."),
     "C12": rt(250, 4000, ["creq"],
-        "as C11", suite="C12", props=["C12"],
+        "as C11", suite="C12", props=["C12", "PureFuns"],
         level_text="C12_grant_partial(_hyp), C12_preflight_partial(_hyp), C12_not_preflight, C12_vary, C12_sanitize_rejects: exact header values for allowed requests, over every configuration and request.",
         level_note="C12_grant / C12_preflight as first stated are false for a configured header list consisting of one empty string (joined to \"\" = not configured); proved with that case excluded (_partial_hyp) and in closed form (_partial)."),
     "C13": rt(300, 5000, ["greq-U:h1", "greq-U:h2", "greq-NA", "greq-OP"],
